@@ -38,6 +38,7 @@ class Model:
         self.registered = {"L1": True, "L2": False, "L3": False}
         self.last = {}  # (listener, svc name, src) -> 'offered' | 'stopped'
         self.sent_before = set()  # (src, channel) that have sent at least one message
+        self.connlost_pending = False
 
     def _canon_(self, now):
         return (
@@ -45,7 +46,7 @@ class Model:
             tuple(sorted((k, tuple(sorted(v))) for k, v in self.arrived.items() if v)),
             tuple(sorted(self.registered.items())),
             tuple(sorted(self.last.items())),
-            tuple(sorted(self.sent_before)),
+            tuple(sorted(self.sent_before)), self.connlost_pending,
         )
 
 
@@ -160,12 +161,21 @@ class Sys(e1.TimedSys):
                 v.discard("L3")
             d.stop_watch_all_services(self.L["L3"])
         elif act[0] == "connlost":
-            m.live.clear()
-            m.arrived.clear()
+            # the protocol object defers the purge by one callback; a datagram handled in between is
+            # stored first and purged right after (offered, stopped) - the model applies the loss then
+            m.connlost_pending = True
             self.prot.connection_lost(None)
 
     # ------------------------------------------------------------------------------------
+    def _apply_connlost(self):
+        m = self.model
+        if m.connlost_pending:
+            m.connlost_pending = False
+            m.live.clear()
+            m.arrived.clear()
+
     def before_step(self, ev):
+        self._apply_connlost()  # the deferred purge of an earlier connection_lost() runs before this step's action
         now = self.loop.time()
         r = self.loop._clock_resolution
         m = self.model
@@ -219,6 +229,7 @@ class Sys(e1.TimedSys):
             self.step_kinds = []
         if not self.loop.idle() or self.held:
             return
+        self._apply_connlost()
         for ln in ("L1", "L2", "L3"):
             for sname in ("X", "Y"):
                 for src in SRC:
